@@ -23,6 +23,33 @@ impl IntrospectionDatabase {
         self.entries.len()
     }
 
+    #[cfg(feature = "verif-hooks")]
+    pub(crate) fn verif_dump(&self) -> Vec<crate::verif::DumpIntrospection> {
+        self.entries
+            .iter()
+            .map(|(&type_id, entry)| crate::verif::DumpIntrospection {
+                type_id,
+                conns: entry.conn_ids.iter().map(ConnectionId::verif_id).collect(),
+                index_ok: entry.conn_ids.len() == entry.conn_id_idxs.len()
+                    && entry
+                        .conn_ids
+                        .iter()
+                        .enumerate()
+                        .all(|(idx, id)| entry.conn_id_idxs.get(id) == Some(&idx)),
+                cached: entry.introspection.is_some(),
+                queried: entry
+                    .queried
+                    .as_ref()
+                    .map(|q| (q.conn_id.verif_id(), q.serial)),
+                pending: entry
+                    .pending
+                    .iter()
+                    .map(|p| (p.conn_id.verif_id(), p.serial))
+                    .collect(),
+            })
+            .collect()
+    }
+
     pub(crate) fn register(&mut self, type_ids: &HashSet<TypeId>, conn_id: &ConnectionId) {
         for type_id in type_ids {
             self.entries
